@@ -397,8 +397,9 @@ def c01_toy_verify_recover(opts):
 # ----------------------------------------------------------------------------------------- toy curves: signing
 @bounded("C01.toy_sign", props=["C01"],
          bound="toy prime-order curves, pure Python: quick 4 seeded curves p<=23 (2 with n<p, 2 with n>p; 35 seeded z each), "
-               "thorough 40 seeded curves p<=59; every d in [1,n-1]; z = every leading-qlen-bit pattern (placed in the top bits of a 256-bit "
-               "hash, random low bits) + [1,2n+1] + {2^256-1, 2^255, n<<k}: 1<=r,s<n; verifies (pycoin and textbook) under "
+               "thorough 16 seeded curves p<=59 (8 with n<p, 8 with n>p); every d in [1,n-1]; z drawn from: every leading-qlen-bit "
+               "pattern (placed in the top bits of a 256-bit hash, random low bits) + [1,2n+1] + {2^256-1, 2^255, n<<k} - all of "
+               "them for p<=11 (thorough), else 45 seeded + edges {1,n-1,n,n+1,2^256-1}: 1<=r,s<n; verifies (pycoin and textbook) under "
                "d*G; equals own RFC 6979 signature when its first nonce gives r,s != 0; sign == sign_with_recid[:2]; recid "
                "describes the nonce point; recovery returns only verifying keys and contains d*G when nonce x<n; the other "
                "d' keys and another hash are rejected")
@@ -410,7 +411,7 @@ def c01_toy_sign(opts):
     curves = toy_curves(23 if quick else 59)
     small_n = [c for c in curves if c[4] < c[0]]
     big_n = [c for c in curves if c[4] > c[0]]
-    ncur = 4 if quick else 40
+    ncur = 4 if quick else 16
     chosen = rng.sample(small_n, ncur // 2) + rng.sample(big_n, ncur - ncur // 2)
     retried = ncase = 0
     for (p, a, b, pts, n) in chosen:
@@ -425,8 +426,9 @@ def c01_toy_sign(opts):
             zs.add((top << (256 - qlen)) | rng.getrandbits(256 - qlen))
             zs.add((top << (256 - qlen)) | 1)
         zs = sorted(zs)
-        if quick:
-            zs = sorted(set(rng.sample(zs, min(len(zs), 30)) + [1, n - 1, n, n + 1, 2 ** 256 - 1]))
+        if quick or p > 11:
+            # (all z for p <= 11 in the thorough tier; a seeded subset of 30 / 45 z beyond, always with the edges)
+            zs = sorted(set(rng.sample(zs, min(len(zs), 30 if quick else 45)) + [1, n - 1, n, n + 1, 2 ** 256 - 1]))
         for d in range(1, n):
             Q = rc.mulG(d)
             for z in zs:
@@ -522,14 +524,14 @@ def _z_values(n, rng, nrand):
          bound="secp256k1 and secp256r1, configurations {shipped OpenSSL-accelerated generator, pure-Python Generator on the "
                "same parameters}; d in {1,2,n-2,n-1,2^255 mod n,seeded}; z in {1,2,n-1,n,n+1,2n-1|2^256-2,2^255,2^256-1,"
                "2^256-2,2^256-n,2^128, seeded 256-bit, seeded z>=n, seeded short}.  quick: openssl 60 / pure 5 (d,z) pairs "
-               "per curve; thorough: openssl 900 / pure 120.  Checks: range; textbook verify under d*G; == own RFC 6979 "
+               "per curve; thorough: openssl 300 / pure 24.  Checks: range; textbook verify under d*G; == own RFC 6979 "
                "signature up to s<->n-s; both configurations return the identical signature; sign==sign_with_recid[:2]; "
                "recid; recovery sound and contains d*G; other key/hash rejected; nonces pairwise distinct for distinct "
                "(d, z mod n); deterministic_generate_k == own RFC 6979 nonce; Key.sign/Key.verify DER wrapper (secp256k1)")
 def c01_production_sign(opts):
     rng = random.Random(opts["seed"])
     quick = opts.get("tier") == "quick"
-    n_native, n_pure = (60, 5) if quick else (900, 120)
+    n_native, n_pure = (60, 5) if quick else (300, 24)
     t = Tally(rule="one case per (curve, configuration, d, z); all non-trivial (RFC 6979 first nonce always usable on 256-bit curves)")
     v = V(t)
     from pycoin.ecdsa.rfc6979 import deterministic_generate_k
@@ -607,7 +609,7 @@ def c01_production_sign(opts):
         # Key.sign / Key.verify DER wrapper (secp256k1 only: the BTC network key class)
         if name == "secp256k1":
             from pycoin.symbols.btc import network
-            for (d, z) in pairs[:(12 if quick else 150)]:
+            for (d, z) in pairs[:(12 if quick else 100)]:
                 t.case(key=(name, "Key", d, z))
                 h = z.to_bytes(32, "big")
                 krepro = REPO_HDR + "from pycoin.symbols.btc import network as N; k=N.keys.private(%d); sig=k.sign(bytes.fromhex('%s')); print(sig.hex(), k.verify(bytes.fromhex('%s'), sig))" % (d, h.hex(), h.hex())
@@ -665,11 +667,11 @@ def _der_decode(der):
                "a chosen nonce point incl. nonce x in [n,p) when the curve has such x (r = x-n) and odd/even y; (iii) seeded "
                "random (r,s) (invalid w.h.p.), r,s in {0,1,n-1,n,n+1,2^256-1}; recovery on all of them and on r in [n,p) "
                "(r = x of a real curve point): only verifying keys.  quick: openssl 25 / pure 3 per class per curve; "
-               "thorough: 300 / 30")
+               "thorough: 200 / 16")
 def c01_production_verify_adversarial(opts):
     rng = random.Random(opts["seed"])
     quick = opts.get("tier") == "quick"
-    n_native, n_pure = (25, 3) if quick else (300, 30)
+    n_native, n_pure = (25, 3) if quick else (200, 16)
     t = Tally(rule="one case per (curve, configuration, class, Q, z, r, s); nontrivial = 1<=r,s<n")
     v = V(t)
     notes = {}
